@@ -32,7 +32,7 @@ def _uniq(fns):
         k = (f.qt, f.f['sig'])
         if k not in seen:
             seen.add(k)
-            out.append(f)
+            out.append(f.fx.inl(f) if getattr(f, 'fx', None) is not None else f)   # helpers extracted since the pinned tree are expanded in place
     return out
 
 
@@ -124,6 +124,12 @@ def validatefirst(run, fx):
                          % (br, he, hn, hr))
 
 
+def _is_cont_test(f):
+    """the byte is 10xxxxxx: `(*cp >> 6) == 2` or `(*cp & 0xC0) == 0x80`"""
+    x = f[0].replace(' ', '')
+    return f[1] == '==' and 'cp' in x and (('>>6' in x and f[2] == '2') or ('&192' in x and f[2] == '128'))
+
+
 def contguard(run, fx):
     g8 = _uniq(fx.fns_named('graphite2::_utf_codec<8>::get'))
     if not g8:
@@ -157,8 +163,8 @@ def contguard(run, fx):
             if not direct:
                 continue
             n += 1
-            inst = 'utf8 look-ahead @%s:%s -> @%s:%s' % (a['ln'], a['col'], b['ln'], b['col'])
-            ok = dom.must_pass(fn, ba, bb, lambda f: '>> 6' in f[0] and 'cp' in f[0] and f[1] == '==' and f[2] == '2')
+            inst = 'utf8 look-ahead @%s -> @%s' % (a.get('site') or '%s:%s' % (a['ln'], a['col']), b.get('site') or '%s:%s' % (b['ln'], b['col']))
+            ok = dom.must_pass(fn, ba, bb, _is_cont_test)
             if ok:
                 run.held('CONTGUARD', inst, fn.loc(b), 'next byte read only after the previous byte passed (*cp >> 6) == 2')
             else:
@@ -172,7 +178,9 @@ def contguard(run, fx):
         raise AnalysisBroken('_utf_codec<16>::get: read of cp[1] not found')
     for e in rd:
         fs = [f[:3] for f in dom.facts_at(g16, e['i'])]
-        hi = any(f[0] == 'uh' and f[1] == '>=' and f[2] == str(0xD800) for f in fs) and any(f[0] == 'uh' and f[1] == '<=' and f[2] == str(0xDBFF) for f in fs)
+        # facts about the first unit, whatever local holds it (resolved spelling cp[0])
+        hi = any(f[0] in ('uh', 'cp[0]') and dom.implies(f, (f[0], '>=', str(0xD800))) for f in fs) and \
+            any(f[0] in ('uh', 'cp[0]') and dom.implies(f, (f[0], '<=', str(0xDBFF))) for f in fs)
         if hi:
             run.held('CONTGUARD', 'utf16 trail read', g16.loc(e), 'cp[1] read only when cp[0] is a high surrogate (D800..DBFF)')
         else:
@@ -180,8 +188,8 @@ def contguard(run, fx):
 
 
 def advancebound(run, fx):
-    for bits, okpred, what in ((8, lambda f: '>> 6' in f[0] and f[1] == '==' and f[2] == '2', 'continuation test'),
-                               (16, lambda f: f[0] == 'ul' and f[1] == '<=' and f[2] == str(0xDFFF), 'low-surrogate test'),
+    for bits, okpred, what in ((8, _is_cont_test, 'continuation test'),
+                               (16, lambda f: f[0] in ('ul', 'cp[1]') and dom.implies(f, (f[0], '<=', str(0xDFFF))), 'low-surrogate test'),
                                (32, lambda f: False, 'none')):
         fn = _uniq(fx.fns_named('graphite2::_utf_codec<%d>::get' % bits))[0]
         lv = fn.f['params'][1]['vid']
@@ -237,7 +245,7 @@ def advancebound(run, fx):
 def leadreject(run, fx):
     vals = {}
     for v in fx.raw['vars']:
-        if v['q'] in ('graphite2::_utf_codec<8>::sz_lut', 'graphite2::_utf_codec<8>::mask_lut', 'graphite2::_utf_codec<8>::limit') and v.get('init'):
+        if v['q'].startswith('graphite2::_utf_codec<8>::') and v.get('init'):
             def consts(n, out):
                 if isinstance(n, dict):
                     if n.get('k') in ('InitListExpr',):
@@ -252,7 +260,10 @@ def leadreject(run, fx):
             consts(v['init'], out)
             if out:
                 vals[v['q'].split('::')[-1]] = out
-    sz, mask, limit = vals.get('sz_lut'), vals.get('mask_lut'), vals.get('limit')
+    # by role, not by name: the 16-entry table is the length class per lead nibble, the 5-entry one the lead-byte mask per length
+    sz = next((v for v in vals.values() if len(v) == 16), None)
+    mask = next((v for v in vals.values() if len(v) == 5), None)
+    limit = next((v for k_, v in vals.items() if len(v) == 1 and v[0] > 0xFFFF), None)
     if not sz or not mask or not limit or len(sz) != 16:
         raise AnalysisBroken('UTF-8 tables not found (sz_lut %s, mask_lut %s, limit %s)' % (sz, mask, limit))
     limit = limit[0]
@@ -268,7 +279,7 @@ def leadreject(run, fx):
     # the classes themselves: 0x00-0x7F single, 0x80-0xBF trailing, C0-DF two, E0-EF three, F0-FF four
     want = [1] * 8 + [0] * 4 + [2, 2, 3, 4]
     g8 = _uniq(fx.fns_named('graphite2::_utf_codec<8>::get'))[0]
-    has_limit = any('limit' in g8.render(g8.term_cond(b)) for b in g8.blocks if g8.term_cond(b) is not None)
+    has_limit = any(str(limit) in g8.render(g8.term_cond(b), resolve=True) or 'limit' in g8.render(g8.term_cond(b)) for b in g8.blocks if g8.term_cond(b) is not None)
     if sz != want:
         run.violated('LEADREJECT', 'utf8 lead classes', 'src/UtfCodec.cpp', 'sz_lut is %s, expected %s (single / trailing / 2 / 3 / 4 byte lead classes)' % (sz, want))
     elif bad or not has_limit:
@@ -279,14 +290,29 @@ def leadreject(run, fx):
 
 
 def iterstep(run, fx):
+    """operator++ advances the iterator's code-unit pointer by |stored sequence length| (roles: the pointer-typed member and the
+    8-bit signed member of _utf_iterator)"""
     seen = 0
     for fn in _uniq([f for f in fx.all_fns() if '_utf_iterator<' in f.q and f.q.endswith('::operator++') and len(f.f['params']) == 0]):
         seen += 1
-        adv = [e for _, e in fn.elements() if e['k'] == 'CompoundAssignOperator' and e['op'] == '+=' and fn.render(fn.N(e['c'][0])) == 'this->cp']
-        ok = adv and 'abs' in fn.render(fn.N(adv[0]['c'][1])) and 'this->sl' in fn.render(fn.N(adv[0]['c'][1]))
+        ok = False
+        for _, e in fn.elements():
+            if e['k'] == 'CompoundAssignOperator' and e['op'] == '+=':
+                l = fn.strip_all_casts(e['c'][0])
+                if l['k'] == 'MemberExpr' and '*' in (l.get('t') or ''):
+                    r = fn.deref(e['c'][1])
+                    txt = fn.render(r, resolve=True)
+                    import re as _re
+                    t_ = txt.replace(' ', '')
+                    hasabs = any((y.get('fq') or '').split('::')[-1] == 'abs' for y in fn.walk(r)) or \
+                        bool(_re.search(r'\(\((.+?)<0\)\?-\1:\1\)', t_)) or bool(_re.search(r'\(\((.+?)>=0\)\?\1:-\1\)', t_)) or \
+                        bool(_re.search(r'\(\((.+?)>0\)\?\1:-\1\)', t_))
+                    small = any(y['k'] == 'MemberExpr' and (y.get('t') or '').replace('const ', '') in ('signed char', 'graphite2::int8', 'int8') for y in fn.walk(r))
+                    if hasabs and small:
+                        ok = True
         inst = 'operator++ %s' % fn.q.split('<', 1)[1].split('>')[0]
         if ok:
-            run.held('ITERSTEP', inst, fn.where(), 'cp += abs(sl)', False)
+            run.held('ITERSTEP', inst, fn.where(), 'pointer member += abs(sequence length member)', False)
         else:
             run.violated('ITERSTEP', inst, fn.where(), '_utf_iterator::operator++ no longer advances by abs(sl)')
     if seen < 3:
